@@ -48,8 +48,8 @@ theorem graphOf_callsOk {c : ProgCert} (hcl : certClosed c = true) {r : RId} {G 
     obtain ⟨k', hk'⟩ := lookup_mem _ _ _ hl
     exact hcl.2 _ hk'
 
-theorem callPresent_of_cert {version : Nat} {fp dyn : Bool} {p : Prog} {c : ProgCert} (cx : Ctx)
-    (hcl : certClosed c = true) : CallPresent ⟨cx, p, c.prog, version, fp, dyn⟩ := by
+theorem callPresent_of_cert {version : Nat} {fp dyn strict : Bool} {p : Prog} {c : ProgCert} (cx : Ctx)
+    (hcl : certClosed c = true) : CallPresent ⟨cx, p, c.prog, version, fp, dyn, strict⟩ := by
   intro X cfg K cur hR f ce cb k _ hb
   have hG := X.hG
   rw [hR.pg] at hG
@@ -63,19 +63,19 @@ theorem callPresent_of_cert {version : Nat} {fp dyn : Bool} {p : Prog} {c : Prog
   exact hblk _ hmem
 
 /-- the per-routine part of `fragmentOnCert` -/
-theorem subOkC_of_cert {fp dyn : Bool} {p : Prog} {c : ProgCert} (hf : fragmentOnCert fp p c dyn = true)
+theorem subOkC_of_cert {fp dyn strict : Bool} {p : Prog} {c : ProgCert} (hf : fragmentOnCert fp p c dyn strict = true)
     {f : Nat} {sd : SubDef} (hsd : findSub p f = some sd) (hpres : (c.prog.subs.lookup (subLabel f)).isSome = true) :
-    subOkC fp p sd dyn = true := by
+    subOkC fp p sd dyn strict = true := by
   have hmem : sd ∈ p.subs := List.mem_of_find?_eq_some hsd
   have hid : sd.id = f := findSub_id hsd
   simp only [fragmentOnCert, Bool.and_eq_true, List.all_eq_true, Bool.or_eq_true, Bool.not_eq_true'] at hf
-  rcases hf.1.2 sd hmem with h | h
+  rcases hf.1.1.2 sd hmem with h | h
   · simp only [certHas, hid] at h; rw [h] at hpres; cases hpres
   · exact h
 
-theorem progOK_of_cert {version : Nat} {fp dyn : Bool} {p : Prog} {c : ProgCert} (cx : Ctx)
-    (hf : fragmentOnCert fp p c dyn = true) (hs : certSubsOk version fp p c = true) :
-    ProgOK ⟨cx, p, c.prog, version, fp, dyn⟩ := by
+theorem progOK_of_cert {version : Nat} {fp dyn strict : Bool} {p : Prog} {c : ProgCert} (cx : Ctx)
+    (hf : fragmentOnCert fp p c dyn strict = true) (hs : certSubsOk version fp p c = true) :
+    ProgOK ⟨cx, p, c.prog, version, fp, dyn, strict⟩ := by
   intro f sd hsd hpres
   have hmem : sd ∈ p.subs := List.mem_of_find?_eq_some hsd
   have hid : sd.id = f := findSub_id hsd
@@ -96,18 +96,18 @@ theorem progOK_of_cert {version : Nat} {fp dyn : Bool} {p : Prog} {c : ProgCert}
       rw [hr] at h1
       simp only [Bool.and_eq_true, decide_eq_true_eq, beq_iff_eq] at h1
       obtain ⟨rfl, rfl⟩ := h1
-      exact subOK_of_genSub (P := ⟨cx, p, c.prog, version, fp, dyn⟩) hr hl hmem hso
+      exact subOK_of_genSub (P := ⟨cx, p, c.prog, version, fp, dyn, strict⟩) hr hl hmem hso
 
 theorem callInv_of_cert {version : Nat} {fp : Bool} {p : Prog} {c : ProgCert} (cx : Ctx)
-    (hf : fragmentOnCert fp p c = true) : CallInv ⟨cx, p, c.prog, version, fp, false⟩ := by
+    (hf : fragmentOnCert fp p c = true) : CallInv ⟨cx, p, c.prog, version, fp, false, false⟩ := by
   cases fp with
-  | false => exact callInv_scratch rfl
+  | false => exact callInv_scratch rfl rfl
   | true =>
     have hf' := hf
     simp only [fragmentOnCert, Bool.and_eq_true, List.all_eq_true, Bool.or_eq_true, Bool.not_eq_true',
       Bool.not_true, Bool.false_or] at hf'
-    obtain ⟨_, hpnd, hreach⟩ := hf'
-    refine callInv_fp_of (P := ⟨cx, p, c.prog, version, true, false⟩) rfl rfl hpnd
+    obtain ⟨⟨_, hpnd, hreach⟩, _⟩ := hf'
+    refine callInv_fp_of (P := ⟨cx, p, c.prog, version, true, false, false⟩) rfl rfl hpnd
       (fun f sd hsd hpres => subOkC_of_cert hf hsd hpres) ?_
     intro f0 sd0 hsd0 hpres0 g hg hre h hh
     have hmem0 : sd0 ∈ p.subs := List.mem_of_find?_eq_some hsd0
@@ -186,9 +186,10 @@ theorem compile_correct_validated_prog (version : Nat) (fp : Bool) (p : Prog) (P
   obtain ⟨⟨⟨⟨hf, hm⟩, hs⟩, hcl⟩, hk⟩ := h
   have hwm : mainOkC fp p false = true := by
     simp only [fragmentOnCert, Bool.and_eq_true] at hf
-    exact hf.1.1
-  have key := to_avm hk (genProg_correct_of ⟨cx, p, c.prog, version, fp, false⟩ (progOK_of_cert cx hf hs)
-    (callPresent_of_cert cx hcl) (callInv_of_cert cx hf) (main_of_cert hm) hwm w0 fuel)
+    exact hf.1.1.1
+  have hP := progOK_of_cert (version := version) (strict := false) cx hf hs
+  have key := to_avm hk (genProg_correct_of ⟨cx, p, c.prog, version, fp, false, false⟩ hP
+    (callPresent_of_cert cx hcl) (callInv_of_cert cx hf) (callEntry_plain hP (by simp [PCtx.sref])) (main_of_cert hm) hwm w0 fuel)
   revert key
   cases Src.runProg cx p fuel w0 with
   | done v w =>
@@ -214,9 +215,10 @@ theorem compile_correct_validated_prog_dyn_partial (version : Nat) (p : Prog) (P
   obtain ⟨⟨⟨⟨hf, hm⟩, hs⟩, hcl⟩, hk⟩ := h
   have hwm : mainOkC false p true = true := by
     simp only [fragmentOnCert, Bool.and_eq_true] at hf
-    exact hf.1.1
-  have key := to_avm hk (genProg_correct_of ⟨cx, p, c.prog, version, false, true⟩ (progOK_of_cert cx hf hs)
-    (callPresent_of_cert cx hcl) (callInv_scratch rfl) (main_of_cert hm) hwm w0 fuel)
+    exact hf.1.1.1
+  have hP := progOK_of_cert (version := version) (strict := false) cx hf hs
+  have key := to_avm hk (genProg_correct_of ⟨cx, p, c.prog, version, false, true, false⟩ hP
+    (callPresent_of_cert cx hcl) (callInv_scratch rfl rfl) (callEntry_plain hP rfl) (main_of_cert hm) hwm w0 fuel)
   revert key
   cases Src.runProg cx p fuel w0 with
   | done v w =>
@@ -226,6 +228,55 @@ theorem compile_correct_validated_prog_dyn_partial (version : Nat) (p : Prog) (P
     · exact .inl hr
     · exact .inr (.inl hr)
     · exact .inr (.inr hr)
+  | fail f => cases f <;> (intro key; exact key)
+  | outOfFuel => intro _; trivial
+
+/-- **Composition with by-reference parameters (stage 3, scratch-slot convention)**: as
+    `C02Gen.genProg_correct_ref` — under the by-reference discipline (checked by `composedOk … true true`
+    for the main routine and the certified routines) the range check of the generated `loads` /
+    `stores` cannot fail where the source run succeeds; the only permitted deviation is the
+    operand-stack limit. -/
+theorem compile_correct_validated_prog_ref (version : Nat) (p : Prog) (P : Program) (c : ProgCert)
+    (h : composedOk version false p P c true true = true) (cx : Ctx) (w0 : World) (fuel : Nat) :
+    match Src.runProg cx p fuel w0 with
+    | .done v w => ∃ n, (∃ w', SameW [] w w' ∧ Avm.run cx P n w0 = .done v w')
+                    ∨ Avm.run cx P n w0 = .fail (.logic "stack overflow")
+    | .fail (.unmodelled _) => True
+    | .fail _ => ∃ n f, Avm.run cx P n w0 = .fail f
+    | .outOfFuel => True := by
+  simp only [composedOk, Bool.and_eq_true] at h
+  obtain ⟨⟨⟨⟨hf, hm⟩, hs⟩, hcl⟩, hk⟩ := h
+  have hf' := hf
+  simp only [fragmentOnCert, Bool.and_eq_true, List.all_eq_true, Bool.or_eq_true, Bool.not_eq_true',
+    Bool.not_false, Bool.and_self, Bool.not_true, Bool.false_or, Option.isNone_iff_eq_none] at hf'
+  obtain ⟨⟨⟨hwm, _⟩, _⟩, hcm, hcs⟩ := hf'
+  let Q : PCtx := ⟨cx, p, c.prog, version, false, true, true⟩
+  have hP : ProgOK Q := progOK_of_cert cx hf hs
+  have hT : ∀ g, (certHas c g = true ∨ findSub p g = none) → PresentT Q g := by
+    intro g hg sd hsd
+    rcases hg with hg | hg
+    · exact hg
+    · rw [hg] at hsd; cases hsd
+  have hcl' : ∀ f sd, findSub p f = some sd → Present Q f → ∀ g, g ∈ callsOf sd.body → PresentT Q g := by
+    intro f sd hsd hpres g hg
+    have hmem : sd ∈ p.subs := List.mem_of_find?_eq_some hsd
+    have hid : sd.id = f := findSub_id hsd
+    rcases hcs sd hmem with h1 | h1
+    · simp only [certHas, hid] at h1
+      have : (c.prog.subs.lookup (subLabel f)).isSome = true := hpres
+      rw [h1] at this; cases this
+    · exact hT g (h1 g hg)
+  have hC : ValCtx p true (PresentT Q) :=
+    valCtx_of (P := Q) (fun f sd hsd hpres => subOkC_of_cert hf hsd hpres) hcl'
+  have hkv : ∀ X cfg K cur, RoutOK Q X cfg K cur → KV Q.p (PresentT Q) X.act K :=
+    fun X cfg K cur hR => kv_of (P := Q) rfl (fun g hg => hT g (hcm g hg)) hcl' hR
+  have key := to_avm hk (genProg_correct_of Q hP (callPresent_of_cert cx hcl) (callInv_ref rfl hC hkv)
+    (callEntry_ref rfl hC hkv) (main_of_cert hm) hwm w0 fuel)
+  revert key
+  cases Src.runProg cx p fuel w0 with
+  | done v w =>
+    intro ⟨n, h⟩
+    exact ⟨n, h.imp id (fun ⟨f, hf', hr⟩ => by rw [hr, hf']; rfl)⟩
   | fail f => cases f <;> (intro key; exact key)
   | outOfFuel => intro _; trivial
 
